@@ -36,6 +36,37 @@ let put_msg = function
   | HA_body b -> L [A "body"; put_body b]
 let put_hout (o : hhandler_out) = L [put_n o.hh_code; put_headers o.hh_headers; put_body o.hh_body]
 
+(* ---- registries (model/Registry.v through model/HttpReg.v); the decoders mirror cmds_c06.ml, which lives in
+   another driver group *)
+let get_typ x = match get_sym x with
+  | "counter" -> TCounter | "gauge" -> TGauge | "summary" -> TSummary | "histogram" -> THistogram
+  | "gaugehistogram" -> TGaugeHistogram | "unknown" -> TUnknown | "info" -> TInfo | "stateset" -> TStateset
+  | s -> bad ("typ: " ^ s)
+let put_typ t = A (match t with
+  | TCounter -> "counter" | TGauge -> "gauge" | TSummary -> "summary" | THistogram -> "histogram"
+  | TGaugeHistogram -> "gaugehistogram" | TUnknown -> "unknown" | TInfo -> "info" | TStateset -> "stateset")
+let get_labels = get_list (get_pair get_str get_str)
+let put_labels = put_list (put_pair put_str put_str)
+let get_sample = function
+  | L [n; l; t] -> { s_name = get_str n; s_labels = get_labels l; s_tok = get_n t }
+  | _ -> bad "sample"
+let put_sample s = L [put_str s.s_name; put_labels s.s_labels; put_n s.s_tok]
+let get_family = function
+  | L [n; t; h; u; ss] -> { f_name = get_str n; f_typ = get_typ t; f_help = get_str h; f_unit = get_str u;
+                            f_samples = get_list get_sample ss }
+  | _ -> bad "family"
+let put_family f = L [put_str f.f_name; put_typ f.f_typ; put_str f.f_help; put_str f.f_unit; put_list put_sample f.f_samples]
+(* collectors: ((describe fams) ...) in registration order, cid = position; describe = N | (S ((name typ) ...)) *)
+let get_collectors x : (cid -> cbeh) * cid list =
+  let l = List.map (function
+    | L [d; fs] -> { c_describe = get_opt (get_list (get_pair get_str get_typ)) d; c_fams = get_list get_family fs }
+    | _ -> bad "collector") (match x with L l -> l | _ -> bad "collectors") in
+  let arr = Array.of_list l in
+  ((fun c -> let i = BZ.to_int (z_of_n c) in
+             if i < Array.length arr then arr.(i) else { c_describe = None; c_fams = [] }),
+   List.mapi (fun i _ -> n_of_int i) l)
+let regs : (string, (cid -> cbeh) * reg) Hashtbl.t = Hashtbl.create 4
+
 let get_ostr = get_opt get_str
 let get_pairs = get_list (get_pair get_str get_str)
 
@@ -68,4 +99,19 @@ let register (reg : string -> (Sx.t list -> Sx.t) -> unit) =
     | [orig; acc; aenc; path] ->
         let f = if get_bool orig then h_handler_get_orig else h_handler_get in
         put_hout (f c17_lower c17_parse_qs c17_urlquery (get_list get_str acc) (get_list get_str aenc) (get_str path))
-    | _ -> bad "c17_handler")
+    | _ -> bad "c17_handler");
+  (* (c17_reg_define key auto target-info-labels collectors) -> the names the registry maps to an owner, in order *)
+  reg "c17_reg_define" (fun a -> match a with
+    | [key; auto; ti; colls] ->
+        let (env, cs) = get_collectors colls in
+        let r = h_build_registry env (get_bool auto) (get_labels ti) cs in
+        Hashtbl.replace regs (Sx.to_string key) (env, r);
+        L [put_list (put_pair put_n (put_list put_str)) r.c2n; put_list (fun (n, _) -> put_str n) r.n2c]
+    | _ -> bad "c17_reg_define");
+  (* (c17_collected key names) -> the families handed to the encoder: names = N | (S (name ...)) *)
+  reg "c17_collected" (fun a -> match a with
+    | [key; names] ->
+        (match Hashtbl.find_opt regs (Sx.to_string key) with
+         | None -> bad "c17_collected: registry not defined"
+         | Some (env, r) -> put_list put_family (h_collected env r (get_opt (get_list get_str) names)))
+    | _ -> bad "c17_collected")
